@@ -106,9 +106,13 @@ def interp_for(stubs, file=None, isa_extra=None, **kw):
         _CTX['tok_stubs'] = C04.lexer_token_stubs(_CTX['ctx'])
     st = dict(_CTX['tok_stubs'])
     st.update(stubs)
-    return Interp.for_file(_CTX['src'], file or PJ, dict(ISA, **(isa_extra or {})), st, also=('mindsdb_sql/planner/plan_join.py', 'mindsdb_sql/planner/query_planner.py', 'mindsdb_sql/planner/ts_utils.py',
+    it_ = Interp.for_file(_CTX['src'], file or PJ, dict(ISA, **(isa_extra or {})), st, also=('mindsdb_sql/planner/plan_join.py', 'mindsdb_sql/planner/query_planner.py', 'mindsdb_sql/planner/ts_utils.py',
                                                                    'mindsdb_sql/planner/utils.py', 'mindsdb_sql/parser/ast/base.py',
                                                                    'mindsdb_sql/parser/ast/select/identifier.py', 'mindsdb_sql/parser/ast/select/union.py'), **kw)
+    # tree nodes compare by what they print (ASTNode.__eq__): two `t` of different databases are EQUAL once the database part is taken off
+    it_.struct_eq = {'Identifier', 'Constant', 'Star', 'BinaryOperation', 'UnaryOperation', 'BetweenOperation', 'Function', 'Select', 'Parameter', 'OrderBy', 'Tuple',
+                     'NullConstant', 'Join', 'TypeCast', 'Case', 'WindowFunction'}
+    return it_
 
 
 def new_pjt(**attrs):
@@ -486,18 +490,19 @@ def run(ctx):
     # ---- limit push (process_table) ------------------------------------------------------------------------------------------------------
     push_rows = 0
     for use_limit, n_conj, n_mine, has_or, order, offset in itertools.product(
-            (True, False), (0, 1, 2), (0, 1, 2), (False, True), (None, 'mine', 'other', 'mixed', 'expression'), (None, 7)):
+            (True, False), (0, 1, 2), (0, 1, 2), (False, True), (None, 'mine', 'other', 'mixed', 'expression', 'other-same-name'), (None, 7)):
         if n_mine > n_conj:
             continue
         me_table = ident('t1')
         me = Obj('TableInfo', integration='int1', table=me_table, conditions=[cmp_(f't1.c{i}') for i in range(n_mine)], index=0, join_condition=None,
                  join_type=None)
-        other = Obj('TableInfo', integration='int2', table=ident('t2'), conditions=[], index=1)
+        # 'other-same-name': the second table is int2.t1 - once the database part is off, its table Identifier EQUALS this table's
+        other = Obj('TableInfo', integration='int2', table=ident('t1' if order == 'other-same-name' else 't2'), conditions=[], index=1)
         mine_conds = list(me.attrs['conditions'])
 
         def ob(name, t):
             return Obj('OrderBy', field=ident(name, t), direction='default', nulls='default')
-        order_by = {None: None, 'mine': [ob('t1.a', me)], 'other': [ob('t2.b', other)], 'mixed': [ob('t1.a', me), ob('t2.b', other)],
+        order_by = {None: None, 'mine': [ob('t1.a', me)], 'other': [ob('t2.b', other)], 'mixed': [ob('t1.a', me), ob('t2.b', other)], 'other-same-name': [ob('int2.t1.b', other)],
                     'expression': [Obj('OrderBy', field=binop('+', ident('t1.a', me), const(1)), direction='default', nulls='default')]}[order]
         q = select_ctor(None, limit=const(5), offset=const(offset) if offset else None, order_by=order_by)
         captured = []
@@ -978,7 +983,7 @@ def cte_roundtrip_rows(ctx):
         stubs['self.prepare_integration_select'] = lambda it, db, q: None
         stubs['SubSelectStep'] = lambda it, q, res, **k: Obj('SubSelectStep', query=q, dataframe=res, **k)
         stubs['FetchDataframeStep'] = lambda it, **k: Obj('FetchDataframeStep', **k)
-        query = select_ctor(None, cte=[Obj('CommonTableExpression', name=Obj('Identifier', parts=[declared], alias=None), query=select_ctor(None))])
+        query = select_ctor(None, cte=[Obj('CommonTableExpression', columns=[], name=Obj('Identifier', parts=[declared], alias=None), query=select_ctor(None))])
         label = f'WITH {declared} AS (..) .. FROM {referenced}'
         try:
             interp_for(stubs, file=QP).call_function(pc, [self_, query], {}, _env())
@@ -992,6 +997,31 @@ def cte_roundtrip_rows(ctx):
             ok = got[0] != 'raises' and (got[0] == 'table' or got == ('cte', 'R-cte'))
         out.append((label, ok, f'[{label}] the reference is planned as {got}: a CTE referenced as it was declared reads the CTE\'s result; a lookup that finds the name under one '
                                f'spelling and reads it under another fails with an internal error', gis.lineno))
+    # WITH c(a, b) AS (SELECT x, y ...): the outputs of the CTE are named by the column list - the select that is planned for the CTE yields a, b (or the planner refuses)
+    for shape in ('select', 'union'):
+        self_ = Obj('QueryPlanner', default_namespace='mindsdb', cte_results={}, plan=Obj('QueryPlan', steps=[]))
+        planned = []
+        stubs = base_stubs()
+        stubs['self.plan_select'] = lambda it, q, *a, **k: (planned.append(q), Obj('Step', result='R-cte'))[1]
+        stubs['copy.deepcopy'] = lambda it, x: x.clone() if isinstance(x, Obj) else x
+        stubs['Identifier'] = lambda it, *a, **k: Obj('Identifier', parts=list(k.get('parts') or (a[0] if a and isinstance(a[0], list) else [a[0]] if a else [])), alias=k.get('alias'))
+        inner = select_ctor(None, targets=[ident('x'), ident('y')], from_table=ident('int1.t'))
+        if shape == 'union':
+            inner = Obj('Union', left=inner, right=select_ctor(None, targets=[ident('p'), ident('q')], from_table=ident('int2.u')), unique=True, alias=None, parentheses=False)
+        query = select_ctor(None, cte=[Obj('CommonTableExpression', name=ident('c'), columns=[ident('a'), ident('b')], query=inner)])
+        label = f'WITH c(a, b) AS ({shape} of x, y)'
+        try:
+            interp_for(stubs, file=QP, isa_extra={'Union': set(), 'Except': set(), 'Intersect': set()}).call_function(pc, [self_, query], {}, _env())
+            q0 = planned[0] if planned else None
+            while isinstance(q0, Obj) and q0.kind in ('Union', 'Except', 'Intersect'):
+                q0 = q0.attrs.get('left')
+            names = [(t.attrs['alias'].parts[-1] if isinstance(t.attrs.get('alias'), Obj) else t.attrs.get('parts', ['?'])[-1]) for t in (q0.attrs.get('targets') or [])] \
+                if isinstance(q0, Obj) else None
+            ok, got = names == ['a', 'b'], f'outputs named {names}'
+        except Raised as r:
+            ok, got = r.exc_name in ('PlanningException', 'NotImplementedError'), f'raises {r.exc_name}'
+        out.append((label, ok, f'[{label}] the CTE is planned with {got}: the column list names the outputs of the CTE; without it `select a from c` reads a column the '
+                               f'result does not have', pc.lineno))
     return out
 
 
